@@ -153,6 +153,26 @@ class CloseChild(object):
         return True
 
 
+class SpawnSub(object):
+    """user-style algo (the pattern of examples/pairs_trading.py): on one date a sub-strategy is created under the running strategy with
+    parent=target and setup_from_parent(), then funded by the parent; the newcomer runs its own little stack from then on"""
+
+    bt = None  # the library module under test (class attribute: instances are deep-copied by Backtest)
+
+    def __init__(self, bt, date, name, tickers, frac, declare=True):
+        SpawnSub.bt = bt
+        self.date, self.name, self.tickers, self.frac, self.declare = pd.Timestamp(date), name, list(tickers), frac, declare
+
+    def __call__(self, target):
+        A = self.bt.algos
+        if target.now == self.date and self.name not in target.children:
+            algos = [A.RunOnce(), A.SelectThese(self.tickers), A.WeighEqually(), A.Rebalance()]
+            new = self.bt.Strategy(self.name, algos, children=list(self.tickers) if self.declare else None, parent=target)
+            new.setup_from_parent()
+            target.allocate(self.frac * target.value, child=self.name)
+        return True
+
+
 class UpdateSelf(object):
     """user-style algo (as in the repository's pairs-trading example): a sub-strategy's stack ends by updating the sub-strategy itself"""
 
@@ -355,6 +375,8 @@ def mk_algo(bt, a, spec, frames):
         return FeeNoFlow(p["amount"])
     if name == "TradeNoUpdate":
         return TradeNoUpdate(p["child"], p["frac"], p.get("how", "allocate"))
+    if name == "SpawnSub":
+        return SpawnSub(bt, p["date"], p["name"], p["tickers"], p["frac"], p.get("declare", True))
     if name == "CloseChild":
         return CloseChild(p["child"])
     if name == "UpdateSelf":
